@@ -103,7 +103,11 @@ void h_zero_guard(void)
   NewMatrix(&o, 1, 1); NewMatrix(&t1, 1, 1); NewMatrix(&t2, 1, 1);
   o->data[0][0] = T_AVG + 1.0;       /* centred value is exactly 1 */
   scale_oracle = VC_IN_DBL();
+#ifdef VC_SPREAD_DOMAIN
   VC_ASSUME(scale_oracle >= 0.0 && scale_oracle < 1e6);
+#else
+  VC_ASSUME(scale_oracle > -1e6 && scale_oracle < 1e6);   /* level scaling stores the column mean, which may be negative */
+#endif
 #ifdef VC_SPREAD_DOMAIN
   VC_ASSUME(scale_oracle == 0.0 || scale_oracle >= 0.02);  /* the property's quantifier: spread >= 0.02 or exactly 0 */
 #endif
@@ -114,6 +118,8 @@ void h_zero_guard(void)
   MatrixPreprocess(o, 1, avg, sc, t2);     /* apply the stored vectors to the same matrix */
   VC_CHECK("fit and apply agree that a column has no spread (exactly 0) or has spread (divided)", (t1->data[0][0] == 0.0) == (t2->data[0][0] == 0.0));
   VC_CHECK("a column without spread becomes exactly zero, never NaN/Inf", scale_oracle != 0.0 || (t1->data[0][0] == 0.0 && t2->data[0][0] == 0.0));
+  VC_CHECK("a column whose stored scaling is clearly non-zero (|s| >= 0.02) is divided, not zeroed",
+           !(scale_oracle >= 0.02 || scale_oracle <= -0.02) || (t1->data[0][0] != 0.0 && t2->data[0][0] != 0.0));
   VC_REACH();
 }
 
